@@ -168,6 +168,15 @@ def ob_derived_weights_tested(run, oid):
                     return True
                 if a[0] == "eq" and any(isinstance(x, tuple) and x and x[0] == "const" and str(x[2]) in ("0", "0.0", "0f64") for x in a[1]):
                     return True
+                # `let mut all_zero = true; for v in list { if v.stake != 0 { all_zero = false; } }`: a flag with several definitions, one of them
+                # behind a comparison of a stake
+                if a[0] == "bool":
+                    for x in a[1]:
+                        for y in (mir.walk(x) if isinstance(x, tuple) else []):
+                            if isinstance(y, tuple) and y and y[0] == "local" and len(b.defs().get(y[1], [])) >= 2:
+                                for d_ in b.defs()[y[1]]:
+                                    if any(a2[0] in ("eq", "lt", "le") and any(isinstance(z, tuple) and K.mentions_field(z, "stake") for z in a2[1]) for a2 in G.guard_atoms(b, d_[1], prog)):
+                                        return True
                 return False
             ok_ = any(zero_test(a) for a in atoms)
             if not ok_:
